@@ -117,7 +117,7 @@ type c20Task struct {
 	Data []byte `json:"data,omitempty"` // kmip: the message in binary TTLV
 	In   []byte `json:"in,omitempty"`   // dec: the bytes to decode (in encoding Enc)
 	Root int    `json:"root,omitempty"` // syn: index in c20Roots
-	Seed uint64 `json:"seed,omitempty"` // syn: value seed
+	Seed uint64 `json:"seed,omitempty,string"` // syn: value seed
 	Tag  int    `json:"tag,omitempty"`
 }
 
